@@ -13,6 +13,9 @@ Local Open Scope Z_scope.
 
 Ltac Zify.zify_post_hook ::= Z.div_mod_to_equations.
 
+Section RA.
+Context `{RAi : RawAssume}.
+
 (* latest return allowed for a timer expiring at e, on a wait entered at clock c *)
 Definition bnd (call c e : Z) : Z := if (call =? 0) || (call =? 2) then c + ceil_ms (e - c) else e.
 
@@ -261,3 +264,4 @@ Proof.
   - intros k. unfold task_registered. rewrite E4, E5. reflexivity.
   - intros H. rewrite G1' in H. split; [exact H|exact E8].
 Qed.
+End RA.
